@@ -273,7 +273,7 @@ func checkC01(t *rapid.T, sub string, bases []string, maxDepth int, noKinds map[
 	nNodes := rapid.IntRange(2, 4).Draw(t, "nodes")
 	w, err := stack.Build(spec, nNodes, 0)
 	if err != nil {
-		t.Fatalf("harness: cannot build %v: %v", spec, err)
+		t.Fatalf("%s", ev.Tag(fmt.Sprintf("harness: cannot build %v: %v", spec, err)))
 	}
 	mtu := w.Nodes[0].S.MTU()
 	part := partSizeOf(spec)
